@@ -601,7 +601,9 @@ class C14(Prop):
           'hill_climb, nsga2 for 8-14 propose/feedback rounds with pass-through reproduction stages: no evaluated '
           'DNA object may change or be proposed again); permutation points of size 4-7 for Order / PartiallyMapped / '
           'Cycle; `where` filters of a closed family on Uniform / Swap; step-driven scalars (STEP, + - * // %) in '
-          'the integer parameters, each case run at a step 0-9. Non-trivial: the expression returns '
+          'the integer parameters, in `with_prob` and `KPoint.k`, incl. scalars.StepWise; `where.Any(k)`, k in 0-9, for '
+          'the permutation recombinators; each case run at a step 0-9, schedule cases also after a warm-up at the '
+          'earlier steps. Non-trivial: the expression returns '
           'normally, the population is non-empty and at least one primitive of the expression made a PRNG '
           'draw or produced a new DNA; distinct: by (spec, population, expression, seed).')
   trusted_base = [
